@@ -280,7 +280,12 @@ def _pool_map(jobs, workers, deadline):
         futs = [ex.submit(run_chunk, j) for j in jobs]
         try:
             for f in as_completed(futs, timeout=max(1.0, deadline - time.time())):
-                results.append(f.result())
+                try:
+                    results.append(f.result())
+                except Exception as e:  # noqa: BLE001 - a worker died (e.g. out of memory): a harness error, reported as such
+                    results.append({"runs": 0, "violations": [], "sigs": [], "nontrivial": 0, "digests": {}, "stats": {}, "faults": {},
+                                    "probes": {}, "samples": [], "errors": [{"index": -1, "error": f"worker failed: {type(e).__name__}: {e}"}],
+                                    "states": [], "stat_tests": 0})
         except TimeoutError:
             truncated = True
             for f in futs:
